@@ -577,6 +577,42 @@ impl<'a> UserModel<'a> {
 
         // Clearing the target area also removes its links: capture them for undo
         let mut diff_list = self.range_link_diffs(&paste_area)?;
+        // The clearing itself is recorded too: replaying the diffs (redo, or another
+        // model applying them) must dissolve an array formula in the target before its
+        // cells are written one by one.
+        {
+            let ws = self.model.workbook.worksheet(sheet)?;
+            let mut old_value = Vec::new();
+            for r in paste_area.row..paste_area.row + paste_area.height {
+                let mut old_row = Vec::new();
+                for c in paste_area.column..paste_area.column + paste_area.width {
+                    old_row.push(match ws.cell(r, c) {
+                        Some(Cell::SpillCell { s, a, .. })
+                            if !matches!(
+                                ws.cell(a.0, a.1),
+                                Some(Cell::ArrayFormula {
+                                    kind: ArrayKind::Cse,
+                                    ..
+                                })
+                            ) =>
+                        {
+                            // the spill of a dynamic array is transient
+                            Some(Cell::EmptyCell { s: *s })
+                        }
+                        other => other.cloned(),
+                    });
+                }
+                old_value.push(old_row);
+            }
+            diff_list.push(Diff::RangeClearContents {
+                sheet,
+                row: paste_area.row,
+                column: paste_area.column,
+                width: paste_area.width,
+                height: paste_area.height,
+                old_value,
+            });
+        }
         self.model.range_clear_contents(&paste_area)?;
 
         // Second pass: write values and build diff list.
